@@ -302,22 +302,23 @@ then assigns by kind), on values or pointers -/
 theorem C14_unmarshal_keeps : (realTD.find "UnmarshalText" true) = none ∧ (realTD.find "UnmarshalJSON" true) = none := by
   decide
 
-/-- the full statement of "unmarshalling stores the secret unchanged", including the squash hook -/
-def C14_unmarshal_full : Prop := ∀ s : String, plainStored s = s ∧ squashHookStored realTD s = s
-
 /-- plain positions (field, pointer, map value, slice element, nested or plainly squashed struct, a
 nested struct with its own `Unmarshal`) keep the secret -/
-theorem C14_unmarshal_plain_partial (s : String) : plainStored s = s := rfl
+theorem C14_unmarshal_plain (s : String) : plainStored s = s := rfl
 
-/-- a **named** field tagged `,squash` whose struct implements `confmap.Unmarshaler` is marshalled and
-decoded again by `unmarshalerEmbeddedStructsHookFunc`: an opaque string inside it ends up holding the
-marker, whatever was written (even the empty string) -/
-theorem C14_unmarshal_squash_hook_stores_marker (s : String) : squashHookStored realTD s = Opaque.marker := rfl
+/-- regenerated fact: `unmarshalerEmbeddedStructsHookFunc` no longer feeds the marshalled (redacted)
+form of a squashed struct back into the map (fails on a tree where it does) -/
+theorem C14_squash_hook_keeps_fields : SquashHook.remarshals = false := by decide
 
-theorem C14_unmarshal_full_fails : ¬ C14_unmarshal_full := by
-  intro h
-  have := (h "s3cr3t").2
-  revert this; decide
+/-- **unmarshalling stores the secret unchanged**, including through a field tagged `,squash` whose
+struct implements `confmap.Unmarshaler` -/
+theorem C14_unmarshal_full (s : String) : plainStored s = s ∧ squashHookStored SquashHook.remarshals realTD s = s := by
+  refine ⟨rfl, ?_⟩
+  simp [squashHookStored, C14_squash_hook_keeps_fields, plainStored]
+
+/-- why the repair was needed: a hook that re-decodes from the marshalled form stores the marker,
+whatever was written (even the empty string) -/
+theorem C14_unmarshal_remarshal_stores_marker (s : String) : squashHookStored true realTD s = Opaque.marker := rfl
 
 /-! ## config-map encoder (`confmap.Conf.Marshal`) -/
 
@@ -425,6 +426,172 @@ theorem C14_encode_leaf_marker (ρ : Nat → String) (i : Nat) : enc realTD ρ (
 theorem C14_encode_noninterference_real (ρ₁ ρ₂ : Nat → String) (he : ∀ i, (ρ₁ i == "") = (ρ₂ i == "")) (v : GV) :
     enc realTD ρ₁ v = enc realTD ρ₂ v :=
   C14_encode_noninterference realTD C14_methods_recv_free (by decide) ρ₁ ρ₂ he v
+
+theorem taKV_append (a b : List (String × Any)) :
+    Any.typedAreArraysKV (a ++ b) = (Any.typedAreArraysKV a && Any.typedAreArraysKV b) := by
+  induction a with
+  | nil => simp [Any.typedAreArraysKV]
+  | cons p ps ih => obtain ⟨k, v⟩ := p; simp [Any.typedAreArraysKV, ih, Bool.and_assoc]
+
+theorem taKV_mapset (k : String) (v : Any) (hv : v.typedAreArrays = true) : ∀ m : List (String × Any),
+    Any.typedAreArraysKV m = true → Any.typedAreArraysKV (m.map (fun p => if p.1 == k then (k, v) else p)) = true
+  | [], _ => rfl
+  | (k', v') :: ps, hm => by
+    simp only [Any.typedAreArraysKV, Bool.and_eq_true] at hm
+    simp only [List.map_cons]
+    split
+    · simp only [Any.typedAreArraysKV, hv, Bool.true_and]; exact taKV_mapset k v hv ps hm.2
+    · simp only [Any.typedAreArraysKV, hm.1, Bool.true_and]; exact taKV_mapset k v hv ps hm.2
+
+theorem taKV_insert (m : List (String × Any)) (k : String) (v : Any)
+    (hm : Any.typedAreArraysKV m = true) (hv : v.typedAreArrays = true) : Any.typedAreArraysKV (insertKV m k v) = true := by
+  unfold insertKV
+  split
+  · exact taKV_mapset k v hv m hm
+  · rw [taKV_append]; simp [hm, Any.typedAreArraysKV, hv]
+
+theorem taKV_merge (m : List (String × Any)) : ∀ (n : List (String × Any)),
+    Any.typedAreArraysKV m = true → Any.typedAreArraysKV n = true → Any.typedAreArraysKV (mergeKVs m n) = true
+  | [], hm, _ => by simpa [mergeKVs] using hm
+  | (k, v) :: rest, hm, hn => by
+    simp only [Any.typedAreArraysKV, Bool.and_eq_true] at hn
+    simp only [mergeKVs]
+    exact taKV_merge (insertKV m k v) rest (taKV_insert m k v hm hn.1) hn.2
+
+section
+variable {td : TD} (hT : (td.find "MarshalText" false).isSome = true) (ρ : Nat → String)
+include hT
+set_option linter.unusedSectionVars false
+
+mutual
+theorem enc_typed : ∀ (v : GV) (a : Any), enc td ρ v = .ok a → a.typedAreArrays = true
+  | .opq i, a, h => by
+    simp only [enc] at h
+    cases hf : td.find "MarshalText" false with
+    | none => simp [hf] at hT
+    | some m => simp only [hf, Except.ok.injEq] at h; subst h; rfl
+  | .str _, a, h => by simp only [enc, Except.ok.injEq] at h; subst h; rfl
+  | .num _, a, h => by simp only [enc, Except.ok.injEq] at h; subst h; rfl
+  | .nilv, a, h => by simp only [enc, Except.ok.injEq] at h; subst h; rfl
+  | .ptr v, a, h => by simp only [enc] at h; exact enc_typed v a h
+  | .iface v, a, h => by simp only [enc] at h; exact enc_typed v a h
+  | .nilSlice, a, h => by simp only [enc, Except.ok.injEq] at h; subst h; rfl
+  | .array _, a, h => by simp only [enc, Except.ok.injEq] at h; subst h; rfl
+  | .nilMap, a, h => by simp only [enc, Except.ok.injEq] at h; subst h; rfl
+  | .slice vs, a, h => by
+    simp only [enc] at h
+    cases hl : encL td ρ vs with
+    | error e => simp [hl, bind, Except.bind] at h
+    | ok xs =>
+      simp only [hl, bind, Except.bind, pure, Except.pure, Except.ok.injEq] at h
+      subst h
+      simp only [Any.typedAreArrays]; exact encL_typed vs xs hl
+  | .map kvs, a, h => by
+    simp only [enc] at h
+    cases hl : encKV td ρ kvs [] with
+    | error e => simp [hl, bind, Except.bind] at h
+    | ok m =>
+      simp only [hl, bind, Except.bind, pure, Except.pure, Except.ok.injEq] at h
+      subst h
+      simp only [Any.typedAreArrays]; exact encKV_typed kvs [] m rfl hl
+  | .struct fs, a, h => by
+    simp only [enc] at h
+    cases hl : encF td ρ fs [] with
+    | error e => simp [hl, bind, Except.bind] at h
+    | ok m =>
+      simp only [hl, bind, Except.bind, pure, Except.pure, Except.ok.injEq] at h
+      subst h
+      simp only [Any.typedAreArrays]; exact encF_typed fs [] m rfl hl
+  | .tm o vv fs, a, h => by
+    simp only [enc] at h
+    cases vv with
+    | true => simp only [if_true, Except.ok.injEq] at h; subst h; rfl
+    | false =>
+      simp only [Bool.false_eq_true, if_false] at h
+      cases hl : encF td ρ fs [] with
+      | error e => simp [hl, bind, Except.bind] at h
+      | ok m =>
+        simp only [hl, bind, Except.bind, pure, Except.pure, Except.ok.injEq] at h
+        subst h
+        simp only [Any.typedAreArrays]; exact encF_typed fs [] m rfl hl
+theorem encL_typed : ∀ (vs : List GV) (xs : List Any), encL td ρ vs = .ok xs → Any.typedAreArraysL xs = true
+  | [], xs, h => by simp only [encL, Except.ok.injEq] at h; subst h; rfl
+  | v :: vs, xs, h => by
+    simp only [encL] at h
+    cases h1 : enc td ρ v with
+    | error e => simp [h1, bind, Except.bind] at h
+    | ok x =>
+      cases h2 : encL td ρ vs with
+      | error e => simp [h1, h2, bind, Except.bind] at h
+      | ok rest =>
+        simp only [h1, h2, bind, Except.bind, pure, Except.pure, Except.ok.injEq] at h
+        subst h
+        simp only [Any.typedAreArraysL, enc_typed v x h1, encL_typed vs rest h2, Bool.and_self]
+theorem encKV_typed : ∀ (kvs : List (GV × GV)) (acc m : List (String × Any)),
+    Any.typedAreArraysKV acc = true → encKV td ρ kvs acc = .ok m → Any.typedAreArraysKV m = true
+  | [], acc, m, ha, h => by simp only [encKV, Except.ok.injEq] at h; subst h; exact ha
+  | (k, v) :: kvs, acc, m, ha, h => by
+    simp only [encKV] at h
+    cases h1 : enc td ρ k with
+    | error e => simp [h1, bind, Except.bind] at h
+    | ok ek =>
+      simp only [h1, bind, Except.bind] at h
+      cases hk : keyString ek with
+      | none => simp [hk] at h
+      | some key =>
+        simp only [hk] at h
+        split at h
+        · simp at h
+        · cases h2 : enc td ρ v with
+          | error e => simp [h2] at h
+          | ok ev =>
+            simp only [h2] at h
+            refine encKV_typed kvs _ m ?_ h
+            rw [taKV_append]; simp [ha, Any.typedAreArraysKV, enc_typed v ev h2]
+theorem encF_typed : ∀ (fs : List (FieldInfo × GV)) (acc m : List (String × Any)),
+    Any.typedAreArraysKV acc = true → encF td ρ fs acc = .ok m → Any.typedAreArraysKV m = true
+  | [], acc, m, ha, h => by simp only [encF, Except.ok.injEq] at h; subst h; exact ha
+  | (fi, v) :: fs, acc, m, ha, h => by
+    simp only [encF] at h
+    split at h
+    · exact encF_typed fs acc m ha h
+    · split at h
+      · exact encF_typed fs acc m ha h
+      · cases h1 : enc td ρ v with
+        | error e => simp [h1, bind, Except.bind] at h
+        | ok e =>
+          simp only [h1, bind, Except.bind] at h
+          have he := enc_typed v e h1
+          split at h
+          · split at h
+            · rename_i mm
+              refine encF_typed fs _ m (taKV_merge acc mm ha ?_) h
+              simpa [Any.typedAreArrays] using he
+            · exact encF_typed fs acc m ha h
+          · exact encF_typed fs _ m (taKV_insert acc fi.name e ha he) h
+end
+end
+
+/-- **Arrays** (and nothing else) are handed on by the encoder as typed Go values: with `MarshalText`
+on values, every `typed` node of an encoded configuration is an array — still of its static element
+type, so whatever renders it later goes through the type's methods (`C14_fmt_noninterference` covers
+arrays; yaml/json use `MarshalText` per element) — and no string-kind value escapes the hook chain raw. -/
+theorem C14_encode_typed_values_are_arrays (td : TD) (hT : (td.find "MarshalText" false).isSome = true)
+    (ρ : Nat → String) (v : GV) (a : Any) (h : enc td ρ v = .ok a) : a.typedAreArrays = true :=
+  enc_typed hT ρ v a h
+
+theorem C14_encode_array_passthrough (td : TD) (ρ : Nat → String) (vs : List GV) :
+    enc td ρ (.array vs) = .ok (.typed (.array vs)) := rfl
+
+/-- **Unexported fields** never reach the configuration map: whatever such a field holds (an opaque
+string, a struct with secrets, anything) the encoding of the struct is the same as without the field. -/
+theorem C14_encode_unexported_invisible (td : TD) (ρ : Nat → String) (fi : FieldInfo) (v : GV)
+    (fs : List (FieldInfo × GV)) (acc : List (String × Any)) (hx : fi.exported = false) :
+    encF td ρ ((fi, v) :: fs) acc = encF td ρ fs acc := by
+  simp [encF, hx]
+
+example : (enc realTD ρa (.struct [({ name := "a" }, .array [.opq 0]), ({ name := "h", exported := false }, .opq 1)])).toOption.map Any.strings
+    = some ["a"] := by decide
 
 /-- non-vacuity: headers map + squashed struct + omitempty opaque; the result mentions only the marker -/
 example : (enc realTD ρa (.struct [({ name := "headers" }, .map [(.str "k", .opq 0)]),
